@@ -1,12 +1,21 @@
 #!/bin/bash
-# runs every quick check with several seeds from fresh processes on the current tree; all must exit 0
+# runs every quick check (optimised build and replica build, as ./check does) with several seeds from
+# fresh processes on the current tree; all must exit 0. Evidence goes to a scratch root, /verif/evidence
+# is left alone.   usage: tools/silence_sweep.sh [seeds…]
 cd /verif || exit 2
+export CARGO_NET_OFFLINE=true
+( cd harness && cargo build --release --offline >/dev/null 2>&1 && cargo build --profile dbg --offline >/dev/null 2>&1 ) || { echo "build failed"; exit 2; }
+R=$(mktemp -d /tmp/nvh-sweep.XXXXXX); mkdir -p $R/replays; cp KNOWN_FINDINGS.txt $R/; cp -r replays/regress $R/replays/
 fail=0
 for seed in ${@:-0 1 2 3 4 5}; do
   for i in 01 02 03 04 05 06 07 08 09 10 11 12 13 14 15 16 17; do
-    out=$(VERIF_SEED=$seed ./check C$i quick 2>&1); rc=$?
-    if [ $rc -ne 0 ] || echo "$out" | grep -q "^VIOLATION"; then echo "seed=$seed C$i rc=$rc"; echo "$out" | grep -v "^KNOWN" | head -5; fail=1; fi
+    out=$(VERIF_ROOT=$R VERIF_SEED=$seed timeout 900 harness/target/release/nvh C$i quick 2>&1); rc=$?
+    if [ $rc -eq 0 ]; then
+      out=$(VERIF_ROOT=$R VERIF_SEED=$seed VERIF_PROFILE=dbg VERIF_SCALE=0.5 VERIF_SKIP_STREAMS=long-texts timeout 900 harness/target/dbg/nvh C$i quick 2>&1); rc=$?
+    fi
+    if [ $rc -ne 0 ] || echo "$out" | grep -q "^VIOLATION"; then echo "seed=$seed C$i rc=$rc"; echo "$out" | grep -v "^KNOWN" | head -8; fail=1; mkdir -p /tmp/nvh-sweep-failures; cp $R/replays/found/* /tmp/nvh-sweep-failures/ 2>/dev/null; fi
   done
   echo "seed $seed done"
 done
+rm -rf $R
 exit $fail
